@@ -406,6 +406,26 @@ class ConfigMachine(LoggedMachine):
             self.flags.add('failed_load_configured')
             self._values_check(f'after failed load {kind} while configured')
 
+    @rule(validate=st.booleans())
+    def construct_directly(self, validate):
+        """The class itself is public: building a second configuration object while one is active must be refused
+        exactly like a second load (only generated while a configuration is active)."""
+        from AEIC.config import Config
+
+        if self.model is None:
+            return
+        self.op('construct_directly', validate=validate)
+        self.ctx.evaluations += 1
+        data = copy.deepcopy(self.defaults)
+        try:
+            Config.model_validate(data) if validate else Config(**data)
+        except Exception:  # noqa: BLE001  (any refusal is a refusal)
+            self.flags.add('direct_construction_refused')
+            self._values_check('after refused direct construction')
+            return
+        self.ctx.fail('reload.accepted', 'returned', 'Config.__init__', 'direct_construction',
+                      'a second configuration object was constructed while a configuration was active')
+
     @rule()
     def reset(self):
         from AEIC.config import Config
